@@ -93,3 +93,22 @@ def disjoint(sl, sr):
     pl = [p for op in sl for p in paths_of(op)]
     pr = [p for op in sr for p in paths_of(op)]
     return not any(related(p, q) for p in pl for q in pr)
+
+
+def related_chain(seq):
+    """every operation after the first names a path equal to, above or below a path named earlier (same object family)"""
+    seen = list(paths_of(seq[0]))
+    for op in seq[1:]:
+        ps = paths_of(op)
+        if not any(related(p, q) for p in ps for q in seen):
+            return False
+        seen.extend(ps)
+    return True
+
+
+ORDERS = {"prompt": None, "lazy-remote-intake": ["IL", "S", "UL", "UR", "IR"], "lazy-local-intake": ["IR", "S", "UL", "UR", "IL"],
+          "sync-last": ["IL", "IR", "UL", "UR", "S"], "users-first": ["UL", "UR", "IL", "IR", "S"]}
+
+
+def mirror_order(order):
+    return None if order is None else [{"IL": "IR", "IR": "IL", "UL": "UR", "UR": "UL"}.get(a, a) for a in order]
